@@ -34,6 +34,7 @@
     Anything outside the fragment evaluates to [Stuck], which makes the
     equivalence proofs fail (fail closed). *)
 From Coq Require Import QArith Qround Qabs ZArith List Bool String.
+From Coq Require Import Ascii DecimalString.
 From Verde Require Import Lib.QExtra Model.Coordinates.
 Import ListNotations.
 Open Scope string_scope.
@@ -75,8 +76,9 @@ Inductive expr :=
 | EIdx (a : expr) (i : expr)                 (* a[i], i computed (negative: from the end) *)
 | ESliceTo (a : expr) (k : Z)                (* a[:k]  (k = -1: all but the last; k >= 0: first k) *)
 | ESliceFrom (a : expr) (k : Z)              (* a[k:], k >= 0 *)
-| ECompT (k : comp_kind) (targets : list string) (it : expr) (body : expr).
-                                             (* [e for a, b in it]: every element is unpacked (ValueError otherwise) *)
+| ECallStar (f : string) (args : list expr) (star : expr)    (* f(args, *star): the elements of the sequence [star] are the last positional arguments *)
+| ECompT (k : comp_kind) (targets : list string) (it : expr) (body : expr)    (* a comprehension with a tuple target: e for a, b in it *)
+| ESliceToE (a : expr) (k : expr).           (* a[:k], k computed and >= 0 (a negative k counts from the end: outside the fragment) *)
 
 Inductive stmt :=
 | SAssign (targets : list string) (e : expr)     (* x = e ; a, b = e *)
@@ -92,23 +94,29 @@ Inductive stmt :=
 | SRaise
 | SReturn (e : expr)
 | SPass
+| SMethod (x : string) (m : string) (args : list expr)
+    (* x.m(args) as a statement, where the method may mutate x (fit): x is rebound to the object that the
+       specification "mut:m" in the [user] table returns for (x :: args); the method's result is dropped.
+       Faithful when no alias of x is live: the serialiser admits it for [self] only, and only in functions
+       where [self] occurs in no other way than [self.a], [self.m(..)] and [return self] *)
+| SSetCol (x : string) (i : expr) (e : expr)    (* x[:, i] = e, x a 2-D array, e a 1-D array with one element per row *)
 | SCallSt (t : string) (x : string) (f : string) (args : list expr)
     (* t = x.m(args) / t = f(x, args) where the call CHANGES THE STATE of the object x (a file being read,
-       a random generator): [f] (given by specification in the [user] table) receives the state of x
+       a generator): [f] (given by specification in the [user] table) receives the state of x
        and the arguments and returns the pair (result, new state); t is bound to the result and x is
        rebound to the new state.  The serialiser hoists such calls out of the expression they occur
-       in, admitting them only in the position that is evaluated first *)
+       in, accepting them only in the position that is evaluated first *)
 | SYield (e : expr)
+    (* yield e: the yielded values are collected, in order, in the hidden variable "$yield"
+       (see [run_gen]) *)
 | STry (body handler : list stmt)
     (* try: body except E: handler.  PyLite has ONE exception, so the handler catches everything the
-       body raises, and it runs in the environment the try statement STARTED in: the serialiser admits
+       body raises, and it runs in the environment the try statement STARTED in: the serialiser accepts
        the form only when that cannot be observed (see harness/translate_pylite.py), and the template
        states why every exception of the body is of the class E *)
 | SLog (f : string) (args : list expr).
     (* a call made for its effect on the world (warnings.warn): logged, in order, in the hidden
        variable "$log" (see [run_gen_log]) *)
-    (* yield e: the yielded values are collected, in order, in the hidden variable "$yield"
-       (see [run_gen]) *)
 
 Record func := { f_params : list string; f_body : list stmt }.
 
@@ -131,6 +139,10 @@ Definition toQ (v : val) : option Q :=
 Definition qfloordiv (x y : Q) : Q := inject_Z (Qfloor (x / y)).
 Definition qmod (x y : Q) : Q := x - y * inject_Z (Qfloor (x / y)).
 
+(** [x ** n] for a non-negative int n, by repeated multiplication (0 ** 0 = 1, as in Python and numpy) *)
+Fixpoint qpow_nat (x : Q) (n : nat) : Q :=
+  match n with O => 1 | S k => x * qpow_nat x k end.
+
 Definition arith (op : binop) (a b : val) : option val :=
   match op, a, b with
   | Add, VZ x, VZ y => Some (VZ (x + y))
@@ -150,8 +162,12 @@ Definition arith (op : binop) (a b : val) : option val :=
   | Mod, _, _ => match toQ a, toQ b with
                  | Some x, Some y => if Qeqb y 0 then None else Some (VQ (qmod x y))
                  | _, _ => None end
-  | Pow, VZ x, VZ n => if (n <? 0)%Z then None else Some (VZ (x ^ n))      (* int ** negative int is a float: outside *)
-  | Pow, VQ x, VZ n => if (n <? 0)%Z then None else Some (VQ (Qpower x n))
+  (* x ** n: a negative exponent (a float from ints in Python, an error on numpy int arrays, a zero
+     division for 0.0) and a float exponent are outside the fragment *)
+  | Pow, VZ x, VZ y => if (y <? 0)%Z then None else Some (VZ (x ^ y))
+  | Pow, _, VZ y => match toQ a with
+                    | Some x => if (y <? 0)%Z then None else Some (VQ (qpow_nat x (Z.to_nat y)))
+                    | None => None end
   | Pow, _, _ => None
   end.
 
@@ -192,6 +208,7 @@ Definition binop_val (op : binop) (a b : val) : option val :=
       else None
   | VA l, _ => bc_l op b a
   | _, VA r => bc_r op a b
+  | VS x, VS y => match op with Add => Some (VS (x ++ y)) | _ => None end   (* str + str *)
   | _, _ => arith op a b
   end.
 
@@ -453,6 +470,63 @@ Fixpoint argmin_q (l : list Q) : nat :=
       end
   end.
 
+(** zip: the tuples of the i-th elements, up to the shortest sequence *)
+Fixpoint heads_tails (ls : list (list val)) : option (list val * list (list val)) :=
+  match ls with
+  | [] => Some ([], [])
+  | [] :: _ => None
+  | (x :: t) :: r => match heads_tails r with Some (hs, ts) => Some (x :: hs, t :: ts) | None => None end
+  end.
+Fixpoint zipn (fuel : nat) (ls : list (list val)) : list val :=
+  match fuel with
+  | O => []
+  | S k => match heads_tails ls with Some (hs, ts) => VT hs :: zipn k ts | None => [] end
+  end.
+
+(** the elements of an array in row-major order *)
+Fixpoint flatten_arr (v : val) : list val :=
+  match v with VA l => flat_map flatten_arr l | x => [x] end.
+
+(** fmt.format(arg) for a format string with exactly one replacement field, the plain "{}", and no other
+    brace; [arg] already rendered by str() *)
+Fixpoint has_brace (s : string) : bool :=
+  match s with
+  | EmptyString => false
+  | String c r => Ascii.eqb c "{"%char || Ascii.eqb c "}"%char || has_brace r
+  end.
+Fixpoint format_one (fmt arg : string) : option string :=
+  match fmt with
+  | EmptyString => None
+  | String c r =>
+      if Ascii.eqb c "{"%char then
+        match r with
+        | String d r' => if Ascii.eqb d "}"%char && negb (has_brace r') then Some (arg ++ r') else None
+        | EmptyString => None
+        end
+      else if Ascii.eqb c "}"%char then None
+      else option_map (String c) (format_one r arg)
+  end.
+(** str(z) of a Python int *)
+Definition str_of_Z (z : Z) : string := NilZero.string_of_int (Z.to_int z).
+
+(** x in seq for a list / tuple of scalars, strings or tuples (== on each element, left to right) *)
+Fixpoint member (x : val) (l : list val) : option bool :=
+  match l with
+  | [] => Some false
+  | y :: t => match cmp_val CEq x y with
+              | Some true => Some true
+              | Some false => member x t
+              | None => None end
+  end.
+
+(** max of a non-empty sequence of ints *)
+Fixpoint max_ints (l : list val) : option Z :=
+  match l with
+  | [VZ z] => Some z
+  | VZ z :: t => match max_ints t with Some m => Some (Z.max z m) | None => None end
+  | _ => None
+  end.
+
 (** builtins of the fragment, on exact numbers *)
 Definition call (f : string) (args : list val) : option (option val) :=   (* None: stuck; Some None: raises *)
   let is := String.eqb f in
@@ -578,6 +652,12 @@ Definition call (f : string) (args : list val) : option (option val) :=   (* Non
     match args with [VA l] => if all_scalar l then Some (Some (VA l)) else None | _ => None end
   else if is "attr:size" then
     match args with [VA l] => if all_scalar l then Some (Some (VZ (Z.of_nat (List.length l)))) else None | _ => None end
+  else if is "attr:shape" then       (* a.shape of a (rectangular) array; an object's own attribute otherwise *)
+    match args with
+    | [VA l] => if rect (VA l) then Some (Some (VT (map (fun n => VZ (Z.of_nat n)) (shape_of (VA l))))) else None
+    | [VO _ fs] => match lookup fs "shape" with Some v => Some (Some v) | None => None end
+    | _ => None
+    end
   else if String.prefix "attr:" f then      (* obj.a: an attribute set in this function, or given with the object *)
     match args with
     | [VO _ fs] => match lookup fs (String.substring 5 (String.length f - 5) f) with
@@ -585,6 +665,43 @@ Definition call (f : string) (args : list val) : option (option val) :=   (* Non
                    | None => None end
     | _ => None
     end
+  else if is "meth:format" then       (* "..{}..".format(x), x an int or a str *)
+    match args with
+    | [VS fmt; VZ z] => match format_one fmt (str_of_Z z) with Some r => Some (Some (VS r)) | None => None end
+    | [VS fmt; VS a] => match format_one fmt a with Some r => Some (Some (VS r)) | None => None end
+    | _ => None
+    end
+  else if is "zip" then               (* zip(s1, .., sn): tuples up to the shortest sequence (rendered as a list: only iterated) *)
+    match map_opt seq_of args with
+    | Some ls => Some (Some (VL (zipn (List.length (hd [] ls)) ls)))
+    | None => None
+    end
+  else if is "meth:reshape" then      (* a.reshape((n,)) / a.reshape((-1,)): the elements in row-major order; ValueError if the sizes differ *)
+    match args with
+    | [VA l; VT [VZ n]] =>
+        if rect (VA l) then
+          let fl := flatten_arr (VA l) in
+          if (n =? -1)%Z || (n =? Z.of_nat (List.length fl))%Z then Some (Some (VA fl))
+          else if (0 <=? n)%Z then Some None else None
+        else None
+    | _ => None
+    end
+  else if is "in" then                  (* x in seq: the serialiser renders `a in e` for a non-literal e as a call of "in" *)
+    match args with
+    | [x; VL l] | [x; VT l] => match member x l with Some b => Some (Some (VB b)) | None => None end
+    | _ => None
+    end
+  else if is "max" then                 (* max(seq) of ints; an empty sequence raises ValueError *)
+    match args with
+    | [VL []] | [VT []] => Some None
+    | [VL l] | [VT l] => match max_ints l with Some m => Some (Some (VZ m)) | None => None end
+    | [a; b] => match cmp_scalar CGt b a with         (* max(a, b) of two numbers: b if b > a else a *)
+                | Some c => if is_scalar a && is_scalar b then Some (Some (if c then b else a)) else None
+                | None => None end
+    | _ => None
+    end
+  else if is "np.ravel" then            (* a 1-D array is its own raveling *)
+    match args with [VA l] => if all_scalar l then Some (Some (VA l)) else None | _ => None end
   else if is "np.isin" then           (* element-wise membership of an int array in an int / an int array *)
     match args with
     | [VA l; VZ i] => option_map (fun r => Some (VA r)) (map_opt (isin_val [VZ i]) l)
@@ -615,20 +732,6 @@ Definition call (f : string) (args : list val) : option (option val) :=   (* Non
                 | None => None end
     | _ => None
     end
-  else if is "max" then               (* max(a, b) of two numbers: b if b > a else a *)
-    match args with
-    | [a; b] => match cmp_scalar CGt b a with
-                | Some c => if is_scalar a && is_scalar b then Some (Some (if c then b else a)) else None
-                | None => None end
-    | _ => None
-    end
-  else if is "zip" then               (* zip(a, b): pairs up to the shorter one (rendered as a list) *)
-    match args with
-    | [a; b] => match seq_of a, seq_of b with
-                | Some l, Some r => Some (Some (VL (map (fun p => VT [fst p; snd p]) (combine l r))))
-                | _, _ => None end
-    | _ => None
-    end
   else if is "np.argmin" then         (* the first position of the minimum *)
     match args with
     | [v] => match seq_of v with
@@ -641,13 +744,22 @@ Definition call (f : string) (args : list val) : option (option val) :=   (* Non
     end
   else None.
 
-(** unpacking an element into the targets of a comprehension (the same as [bind_pattern] below) *)
-Fixpoint unpack_targets (targets : list string) (vs : list val) (env : list (string * val))
+(** binding the target(s) of a comprehension with a tuple target (the same as [bind_pattern] below) *)
+Fixpoint comp_bind_targets (targets : list string) (vs : list val) (env : list (string * val))
   : option (list (string * val)) :=
   match targets, vs with
   | [], [] => Some env
-  | x :: t, v :: r => unpack_targets t r ((x, v) :: env)
+  | x :: t, v :: r => comp_bind_targets t r ((x, v) :: env)
   | _, _ => None
+  end.
+Definition comp_bind (targets : list string) (v : val) (env : list (string * val))
+  : list (string * val) + bool :=
+  match targets with
+  | [x] => inl ((x, v) :: env)
+  | _ => match seq_of v with
+         | Some vs => match comp_bind_targets targets vs env with Some env' => inl env' | None => inr true end
+         | None => inr false
+         end
   end.
 
 (** a[idx] with an int array as index (fancy indexing): [None] = IndexError, [Some None] = not ints *)
@@ -839,19 +951,54 @@ Fixpoint eval (env : list (string * val)) (e : expr) {struct e} : option (option
       | Some None => Some None
       | _ => None
       end
-  | ECompT k targets it body =>
-      match eval env it with
-      | Some (Some v) =>
-          match seq_of v with
-          | Some vs => comp_loop k (fun v => match seq_of v with
-                                             | Some xs => match unpack_targets targets xs env with
-                                                          | Some env' => eval env' body
-                                                          | None => Some None end           (* ValueError *)
-                                             | None => None end) vs
+  | ECallStar f args star =>
+      match (fix go (l : list expr) : option (option (list val)) :=
+               match l with
+               | [] => Some (Some [])
+               | a :: t => match eval env a with
+                           | Some (Some v) => match go t with Some (Some r) => Some (Some (v :: r)) | o => o end
+                           | Some None => Some None
+                           | None => None end
+               end) args with
+      | Some (Some vs) =>
+          match eval env star with
+          | Some (Some sv) =>
+              match seq_of sv with
+              | Some extra => match user f with Some g => g (vs ++ extra)%list | None => call f (vs ++ extra)%list end
+              | None => None
+              end
+          | Some None => Some None
           | None => None
           end
       | Some None => Some None
       | None => None
+      end
+  | ECompT k targets it body =>
+      match eval env it with
+      | Some (Some v) =>
+          match seq_of v with
+          | Some vs => comp_loop k (fun v => match comp_bind targets v env with
+                                             | inl env' => eval env' body
+                                             | inr true => Some None
+                                             | inr false => None end) vs
+          | None => None
+          end
+      | Some None => Some None
+      | None => None
+      end
+  | ESliceToE a k =>
+      match eval env a, eval env k with
+      | Some (Some v), Some (Some (VZ n)) =>
+          if (n <? 0)%Z then None else
+          match v with
+          | VL l => ret (VL (firstn (Z.to_nat n) l))
+          | VT l => ret (VT (firstn (Z.to_nat n) l))
+          | VA l => ret (VA (firstn (Z.to_nat n) l))
+          | _ => None
+          end
+      | Some None, _ => Some None
+      | Some (Some _), Some None => Some None
+      | _, _ => None
       end
   end.
 
@@ -900,6 +1047,32 @@ Definition set_slice_to (a : val) (k : Z) (v : val) : option (option val) :=
             | Some (VA r) => Some (Some (VA (r ++ skipn (Z.to_nat k) l)))
             | _ => None end
   | _ => None
+  end.
+
+(** x[:, j] = v: element k of the 1-D array v goes to row k, column j (cast to the array's type, as
+    [set_item] does).  An array without rows has lost its number of columns (numpy raises IndexError for
+    j out of range even then), and a scalar or shorter v would broadcast: outside the fragment *)
+Fixpoint set_col_rows (rows vs : list val) (j : Z) : option (option (list val)) :=
+  match rows, vs with
+  | [], [] => Some (Some [])
+  | VA r :: rows', x :: vs' =>
+      match set_item (VA r) j x with
+      | Some (Some r') => match set_col_rows rows' vs' j with
+                          | Some (Some t) => Some (Some (r' :: t))
+                          | o => o end
+      | Some None => Some None
+      | None => None
+      end
+  | _, _ => None
+  end.
+
+Definition set_col (a : val) (j : Z) (v : val) : option (option val) :=
+  match a, v with
+  | VA (r :: rows), VA vs => match set_col_rows (r :: rows) vs j with
+                             | Some (Some t) => Some (Some (VA t))
+                             | Some None => Some None
+                             | None => None end
+  | _, _ => None
   end.
 
 Fixpoint exec (s : stmt) (env : list (string * val)) {struct s} : outcome :=
@@ -1015,6 +1188,30 @@ Fixpoint exec (s : stmt) (env : list (string * val)) {struct s} : outcome :=
   | SRaise => Raised
   | SReturn e => match eval env e with Some (Some v) => Returned v | Some None => Raised | None => Stuck end
   | SPass => Normal env
+  | SMethod x m args =>
+      match lookup env x, eval env (ETuple args) with
+      | Some self, Some (Some (VT vs)) =>
+          match user ("mut:" ++ m) with
+          | Some g => match g (self :: vs) with
+                      | Some (Some self') => Normal ((x, self') :: env)
+                      | Some None => Raised
+                      | None => Stuck end
+          | None => Stuck
+          end
+      | Some _, Some None => Raised
+      | _, _ => Stuck
+      end
+  | SSetCol x i e =>
+      match lookup env x, eval env i, eval env e with
+      | Some a, Some (Some (VZ j)), Some (Some v) =>
+          match set_col a j v with
+          | Some (Some a') => Normal ((x, a') :: env)
+          | Some None => Raised
+          | None => Stuck end
+      | Some _, Some None, _ => Raised
+      | Some _, Some (Some _), Some None => Raised
+      | _, _, _ => Stuck
+      end
   | SCallSt t x f args =>
       match lookup env x, eval env (ETuple args) with
       | Some st, Some (Some (VT vs)) =>
